@@ -838,6 +838,11 @@ fn main() {
         match args.get(2).map(|s| s.as_str()) {
             Some("c") => args[3..].iter().for_each(|a| println!("{}", c_case(&header::unescape(a), 4))),
             Some("a") => args[3..].iter().for_each(|a| println!("{}", a_case(&unhex(a).expect("hex")))),
+            Some("dbg") => args[3..].iter().for_each(|a| {
+                let mut de = Deserializer::<BIG_B, Frame<Message>>::new(1024);
+                de.input(&unhex(a).expect("hex")).unwrap();
+                println!("{:?}", de.deserialize_next().map(|f| f.map(|f| format!("{:?}", f.data))));
+            }),
             _ => {}
         }
         return;
